@@ -137,7 +137,8 @@ DOCUMENTED = [
 def well_formed_logical(n):
     d, l, r = n
     if d[0] == "s":
-        return l is None and r is None
+        # a quoted term is a string literal, not a feature name: such trees are outside the soundness clauses
+        return l is None and r is None and not d[1].startswith("'")
     if d[0] != "op" or d[1] not in gen.LOGICAL:
         return False
     if d[1] == "NOT":
